@@ -171,6 +171,35 @@ def INSTANTIATE(cls):
     return cls(Doc(True))
 """, [[None, "s1", [["after_go"]]], [None, "s2", [["after_go"]]]])
 
+# one helper function (same source position, hence an equal code object and qualified name) used
+# directly by one definition and through a functools.wraps wrapper of different "asyncness" by
+# another one
+_HELPER = HEAD + """
+def audit(source):
+    REC.append(('audit', _r(source)))
+    return 'h'
+import functools
+def traced(fn):
+    @functools.wraps(fn)
+    async def wrapper(*args, **kwargs):
+        return fn(*args, **kwargs)
+    return wrapper
+def passthrough(fn):
+    @functools.wraps(fn)
+    def wrapper(*args, **kwargs):
+        return fn(*args, **kwargs)
+    return wrapper
+class Dup(StateMachine):
+    s0 = State(initial=True)
+    s1 = State()
+    s2 = State()
+    go = s0.to(s1, on=USE) | s1.to(s2, on=USE) | s2.to(s0, on=USE)
+"""
+_HELPER_EXP = [["h", "s1", [["audit", "s0"]]], ["h", "s2", [["audit", "s1"]]]]
+d("helper-raw", _HELPER.replace("USE", "audit"), _HELPER_EXP)
+d("helper-async-wrapped", _HELPER.replace("USE", "traced(audit)"), _HELPER_EXP)
+d("helper-sync-wrapped", _HELPER.replace("USE", "passthrough(audit)"), _HELPER_EXP)
+
 STRUCT = {"states": ["s0", "s1", "s2"],
           "trans": {"s0": [["go", "s1"]], "s1": [["go", "s2"]], "s2": [["go", "s0"]]},
           "events": ["go"]}
